@@ -10,7 +10,7 @@ if ! git -C "$D/wt" apply "$PATCH" 2>/dev/null; then
     echo "PATCH DOES NOT APPLY: $PATCH"; git -C /repo worktree remove --force "$D/wt"; rm -rf "$D"; exit 3
   fi
 fi
-cd /verif && VERIF_REPO="$D/wt" ./check "$PID" --no-evidence "$@" > "$D/out.txt" 2>&1
+cd /verif && VERIF_REPLAY_DIR="$D/replays" VERIF_REPO="$D/wt" ./check "$PID" --no-evidence "$@" > "$D/out.txt" 2>&1
 RC=$?
 grep -E "^VIOLATION|^HARNESS|^KNOWN|tier=" "$D/out.txt" | head -${MUT_LINES:-4}
 grep -E "^violation in" "$D/out.txt" | head -2 | cut -c1-300
